@@ -21,7 +21,13 @@ func (rl *ReconciledLoader) IngestResponse(md graphsync.LinkMetadata, traceLink 
 		if action == graphsync.LinkActionPresent {
 			if _, isDuplicate := duplicates[link]; !isDuplicate {
 				duplicates[link] = struct{}{}
-				newItem.block = blocks[link]
+				if blk, ok := blocks[link]; ok {
+					if blk == nil {
+						// the empty block was sent: that is not "no block in the message"
+						blk = []byte{}
+					}
+					newItem.block = blk
+				}
 			}
 		}
 		newItem.traceLink = traceLink
